@@ -534,6 +534,17 @@ def check_delim(crate, rep, cfg):
                         for p in r.projs:
                             if p.startswith(".") and ("start" in p or "end" in p):
                                 fields.add(p)
+                        if r.kind == "call" and r.detail[0].endswith("Iterator::next") and r.projs[:2] == ("as:Some", ".0"):
+                            # table form: `for (name, d) in [(.., self.a), (.., self.b), ..] { if d.len() != 2 .. }` — the fields tested are the
+                            # ones listed at that tuple position of the iterated array, all of them (the loop only leaves early with the error)
+                            pos = r.projs[2:3]
+                            for x in tr.operand(v.term(r.detail[2])["args"][0]):
+                                if x.kind == "agg" and x.detail[0] == "array":
+                                    for eop in v.blocks[x.detail[3]]["s"][x.detail[4]]["rv"]["ops"]:
+                                        for e in tr.operand(eop, list(pos)):
+                                            for p in e.projs:
+                                                if p.startswith(".") and ("start" in p or "end" in p):
+                                                    fields.add(p)
     ok = len(fields) == 6
     rep.add("C06.DELIM", "C06.DELIM:validate:six-length-tests", ok, v.where(0), "Delimiters::validate compares the byte length of all six delimiters with 2 (%s)" % sorted(fields)
             + ("" if ok else " — VIOLATED"))
